@@ -125,6 +125,7 @@ extern volatile uint8_t g_scrub_byte;
 // so redzones are byte-exact on both sides of every operand at once (no-ops in ordinary builds)
 void asan_arm();
 void asan_disarm();
+void watchdog(bool on);
 
 template <class F>
 __attribute__((noinline)) Outcome window(F &&f, bool fail_alloc) {
@@ -134,6 +135,7 @@ __attribute__((noinline)) Outcome window(F &&f, bool fail_alloc) {
     g_win.allocs = 0; g_win.fail_alloc = fail_alloc ? 1 : 0;
     if (sigsetjmp(g_win.env, 1) == 0) {
         g_win.open = 1;
+        watchdog(true);          // a library loop that never terminates must not hang the check: SIGALRM ends the window
         try { f(); g_win.open = 0; }
         catch (const std::bad_alloc &) { g_win.open = 0; o.kind = 3; }
         catch (const std::runtime_error &) { g_win.open = 0; o.kind = 2; }
@@ -142,6 +144,7 @@ __attribute__((noinline)) Outcome window(F &&f, bool fail_alloc) {
         g_win.open = 0; o = g_win.sig; o.kind = 1;
     }
     g_win.fail_alloc = 0;
+    watchdog(false);
     asan_disarm();
     o.allocs = g_win.allocs;
     return o;
